@@ -38,12 +38,17 @@ theorem allContributions_eq (pts : List P3) (orig : List Nat) :
     allContributions pts orig =
       (List.range pts.length).map fun i => ((sweepContrib pts).getD i 0, orig.getD i 0) := rfl
 
-/-- what remains to be shown about the sweep itself -/
-def SweepCorrect : Prop :=
+/-- correctness of the sweep on the lists whose points satisfy `C` (e.g. a magnitude bound: the model's
+sentinels use the finite `negInf`) -/
+def SweepCorrectOn (C : P3 → Prop) : Prop :=
   ∀ P : List P3, P.Pairwise (fun a b => a.f3 ≤ b.f3) →
     (∀ q ∈ P, q.f1 < 0 ∧ q.f2 < 0 ∧ q.f3 < 0) →
     (∀ a ∈ P, ∀ b ∈ P, dominates (toPt3 a) (toPt3 b) = false) →
+    (∀ q ∈ P, C q) →
     ∀ k, k < P.length → (sweepContrib P).getD k 0 = contribSpec (P.map toPt3) [0, 0, 0] k
+
+/-- what remains to be shown about the sweep itself (no restriction on the points) -/
+def SweepCorrect : Prop := SweepCorrectOn fun _ => True
 
 /-! ### generic list facts -/
 
@@ -212,9 +217,10 @@ theorem sorted3_pairwise (S : List Pt) (r : Pt) :
   exact this.imp (by simp)
 
 /-- **reduction**: the routine is correct as soon as the sweep is -/
-theorem contribs3d_value_of_sweep (hsw : SweepCorrect) {S : List Pt} {r : Pt}
+theorem contribs3d_value_of_sweepOn {C : P3 → Prop} (hsw : SweepCorrectOn C) {S : List Pt} {r : Pt}
     (hS : ∀ p ∈ S, p.length = 3) (hr : r.length = 3)
-    (hle : ∀ p ∈ S, leAll p r = true) (hnd : ∀ p ∈ S, ∀ q ∈ S, dominates p q = false) :
+    (hle : ∀ p ∈ S, leAll p r = true) (hnd : ∀ p ∈ S, ∀ q ∈ S, dominates p q = false)
+    (hC : ∀ p ∈ S, inside3 r p = true → C (shiftP3 r p)) :
     ∀ c ∈ contribs3d S r, c.1 = contribSpec S r c.2 := by
   obtain ⟨a, b, c, rfl⟩ : ∃ a b c, r = [a, b, c] := by
     match r, hr with
@@ -255,7 +261,12 @@ theorem contribs3d_value_of_sweep (hsw : SweepCorrect) {S : List Pt} {r : Pt}
       rw [he, he', toPt3_shiftP3 (hS p hpS), toPt3_shiftP3 (hS p' hpS'),
         dominates_shift _ _ _ (by simp [hS p hpS]) (by simp [hS p' hpS'])]
       exact hnd p hpS p' hpS'
-    have hsweep := hsw (L.map (·.1)) hP1 hP2 hP3 k (by simpa using hk)
+    have hP4 : ∀ q ∈ L.map (·.1), C q := by
+      intro q hq
+      obtain ⟨w, hw, rfl⟩ := List.mem_map.mp hq
+      obtain ⟨p, _, hpS, hin, he⟩ := hmemL w hw
+      rw [he]; exact hC p hpS hin
+    have hsweep := hsw (L.map (·.1)) hP1 hP2 hP3 hP4 k (by simpa using hk)
     simp only
     rw [hsweep]
     -- split the sorted list at position `k`
@@ -355,6 +366,20 @@ theorem contribs3d_value_of_sweep (hsw : SweepCorrect) {S : List Pt} {r : Pt}
       exact shift_unshift3 w.1
     unfold contribSpec
     rw [e1, e2]
+
+theorem contribs3d_value_of_sweep (hsw : SweepCorrect) {S : List Pt} {r : Pt}
+    (hS : ∀ p ∈ S, p.length = 3) (hr : r.length = 3)
+    (hle : ∀ p ∈ S, leAll p r = true) (hnd : ∀ p ∈ S, ∀ q ∈ S, dominates p q = false) :
+    ∀ c ∈ contribs3d S r, c.1 = contribSpec S r c.2 :=
+  contribs3d_value_of_sweepOn hsw hS hr hle hnd (fun _ _ _ => trivial)
+
+theorem contribs3d_eq_spec_of_sweepOn {C : P3 → Prop} (hsw : SweepCorrectOn C) {S : List Pt} {r : Pt}
+    (hS : ∀ p ∈ S, p.length = 3) (hr : r.length = 3)
+    (hle : ∀ p ∈ S, leAll p r = true) (hnd : ∀ p ∈ S, ∀ q ∈ S, dominates p q = false)
+    (hC : ∀ p ∈ S, inside3 r p = true → C (shiftP3 r p)) :
+    ((contribs3d S r).map (·.2)).Perm (List.range S.length) ∧
+    ∀ c ∈ contribs3d S r, c.1 = contribSpec S r c.2 :=
+  ⟨contribs3d_map_snd_perm S r, contribs3d_value_of_sweepOn hsw hS hr hle hnd hC⟩
 
 theorem contribs3d_eq_spec_of_sweep (hsw : SweepCorrect) {S : List Pt} {r : Pt}
     (hS : ∀ p ∈ S, p.length = 3) (hr : r.length = 3)
